@@ -8,6 +8,4 @@ import (
 
 func synctestWait() { synctest.Wait() }
 
-func runEventLoopWorld(t *testing.T, p *Plan, want []string, logw io.Writer) *Result { return &Result{Seed: p.Seed, Harness: "not built"} }
 func runCmdCacheWorld(t *testing.T, p *Plan, want []string, logw io.Writer) *Result  { return &Result{Seed: p.Seed, Harness: "not built"} }
-func runPuppetWorld(t *testing.T, p *Plan, want []string, logw io.Writer) *Result    { return &Result{Seed: p.Seed, Harness: "not built"} }
